@@ -5,6 +5,7 @@ pub mod httpframing;
 pub mod limits;
 pub mod model;
 pub mod single;
+pub mod stop;
 pub mod stream;
 pub mod subs;
 pub mod world;
